@@ -137,11 +137,11 @@ public:
 
     // The length of an edge with integer end points is not an integer in
     // general: return what the vector's norm returns, not the scalar type.
-    auto length(HalfEdgeHandle _heh) const -> decltype(std::declval<PointT>().length()) {
+    auto length(HalfEdgeHandle _heh) const {
         return vector(_heh).length();
     }
 
-    auto length(EdgeHandle _eh) const -> decltype(std::declval<PointT>().length()) {
+    auto length(EdgeHandle _eh) const {
         return vector(_eh).length();
     }
 
